@@ -108,7 +108,7 @@ def main():
         info["replay_on_mutant_rc"], info["replay_on_clean_rc"] = rc1, rc2
       res["replays"].append(info)
       os.makedirs(f"{RES}/{a.name}_replays", exist_ok=True)
-      shutil.copy(r, f"/tmp/mut/results/{a.name}_replays/")
+      shutil.copy(r, f"{RES}/{a.name}_replays/")
     open(f"{RES}/{a.name}.log", "w").write(out)
     return res
   finally:
